@@ -180,6 +180,14 @@ def tyS : Bool → Option Ty → TEnv → Expr → Res Ty
       | .multi _ => .unsup
       | .never => .unsup
       | _ => .ill
+  -- `it $]`: collecting an iterator `() -> (bool, T)` gives `[T]`
+  | lp, r, g, .post .collect e => (tyS lp r g e).bind fun ti =>
+      match ti with
+      | .fn [] (.tup [b, t]) => if !eqv b .bool then .ill else okW (.arr t)
+      | .fn [] (.multi _) => .unsup
+      | .multi _ => .unsup
+      | .never => .unsup
+      | _ => .ill
   | lp, _, _, .brk => if lp then .ok .never else .ill
   | lp, _, _, .cont => if lp then .ok .never else .ill
   | lp, _, _, _ => .unsup
